@@ -111,8 +111,12 @@ pub fn observe_type(prim: &str, lay: &[u8], path: &[String]) -> Value {
             }
             let ffi_json = {
                 let r = wirefilter_serialize_type_to_json(cty);
-                let s = unsafe { std::slice::from_raw_parts(r.json.ptr as *const u8, r.json.len) };
-                String::from_utf8_lossy(s).to_string()
+                if r.json.ptr.is_null() || r.json.len == 0 {
+                    "<the C API returned no JSON>".to_string()
+                } else {
+                    let s = unsafe { std::slice::from_raw_parts(r.json.ptr as *const u8, r.json.len) };
+                    String::from_utf8_lossy(s).to_string()
+                }
             };
             let (l, n, p) = parse_ct_debug(&dbg).unwrap_or((0, 255, "?".into()));
             json!({
@@ -357,7 +361,7 @@ pub fn reobserve_scheme(e: &Value) -> Value {
         let ffi = {
             let fs: wirefilter_ffi::Scheme = s.clone().into();
             let rr = wirefilter_serialize_scheme_to_json(&fs);
-            let sl = unsafe { std::slice::from_raw_parts(rr.json.ptr as *const u8, rr.json.len) };
+            let sl = crate::ffi_bytes(rr.json.ptr as *const u8, rr.json.len);
             String::from_utf8_lossy(sl).to_string()
         };
         json!({"described": describe(&s), "back": back, "ffi_same": ffi == ser})
